@@ -402,7 +402,9 @@ def gen_transformation(rng: Random, kind: str | None = None, idx: int = 0, depth
     elif kind == "regex":
         t = {"type": "regex", "method": pick(rng, ["plain", "ignore_case_flag", "ignore_case_brackets"])}
     elif kind == "set_custom_attribute":
-        t = {"type": "set_custom_attribute", "attribute": "attr" + tag, "value": "v" + tag}
+        # mostly a new attribute; sometimes the name of a standard rule attribute
+        t = {"type": "set_custom_attribute", "attribute": pick(rng, ["attr" + tag, "attr" + tag, "level", "status"]),
+             "value": pick(rng, ["v" + tag, "low"])}
     elif kind == "hashes_fields":
         t = {"type": "hashes_fields", "valid_hash_algos": ["MD5", "SHA1"], "field_prefix": "File"}
     else:
